@@ -97,8 +97,16 @@ Record reqobj := {
   ro_cc : string; ro_cm : option bool
 }.
 
-Record auth_extra := { x_hint : option (option string); x_prompt : list string; x_ro : option reqobj }.
-Definition no_extra : auth_extra := {| x_hint := None; x_prompt := []; x_ro := None |}.
+(* How the authorization request travels (OIDC Core 3.1.2.1): by GET, or by POST with the parameters
+   named in the list in the query part of the URL and all others form-encoded in the body.  Both
+   routers read url query and body alike (r.Form): nothing in the machine depends on it
+   (C04_authorize_transport_irrelevant). *)
+Inductive avia := V_get | V_post (in_query : list string).
+
+Record auth_extra := { x_hint : option (option string); x_prompt : list string; x_ro : option reqobj; x_via : avia }.
+Definition no_extra : auth_extra := {| x_hint := None; x_prompt := []; x_ro := None; x_via := V_get |}.
+Definition by_get (x : auth_extra) : auth_extra :=
+  {| x_hint := x_hint x; x_prompt := x_prompt x; x_ro := x_ro x; x_via := V_get |}.
 Definition hinted_sub (x : auth_extra) : string :=
   match x_hint x with Some (Some sub) => sub | _ => "" end.
 Definition extra_ok (x : auth_extra) : bool :=
@@ -210,6 +218,7 @@ Inductive op :=
 | TokenCode (pl : place) (f : option smethod) (c : cred) (code : option nat) (uri ver : string)
 | TokenRefresh (pl : place) (c : cred) (rt : option nat) (scopes : list string)
 | DropRefresh (client : string)      (* test side: the client's registration loses the refresh_token grant *)
+| DropGrants (client : string)      (* test side: the registration is left with NO grant type at all (empty list) *)
 | RevokeRT (rt : nat).               (* storage side: refresh token rt is revoked / expires: from now on
                                         Storage.TokenRequestByRefreshToken refuses it (with an error - whatever
                                         else it returns next to the error) *)
@@ -261,6 +270,11 @@ Definition code_req (s : st) (c : nat) : option areq :=
 (* the client is registered for the refresh_token grant right now *)
 Definition has_refresh (s : st) (c : client) : bool :=
   c_refresh c && negb (string_in (c_id c) (norefresh s)).
+
+(* ... and for the authorization_code grant: DropGrants leaves the registration without any grant
+   type and records that as the entry "*" ++ id *)
+Definition has_code (s : st) (c : client) : bool :=
+  c_code c && negb (string_in ("*" ++ c_id c)%string (norefresh s)).
 
 Definition subset (a b : list string) : bool := forallb (fun x => string_in x b) a.
 Definition is_nil {A} (l : list A) : bool := match l with [] => true | _ => false end.
@@ -444,7 +458,7 @@ Definition prov_code (s : st) (cr : cred) (code : option nat) (uri ver : string)
               | inr e => (s, err Provider e)
               | inl c =>
                   if negb (String.eqb (c_id c) (q_client q)) then (s, err Provider E_grant)
-                  else if negb (c_code c) then (s, err Provider E_unauthorized)
+                  else if negb (has_code s c) then (s, err Provider E_unauthorized)
                   else if negb (String.eqb uri (q_uri q)) then (s, err Provider E_grant)
                   else issue_code s q c
               end
@@ -478,7 +492,7 @@ Definition legacy_code (s : st) (cr : cred) (code : option nat) (uri ver : strin
   match legacy_client cr with
   | inr e => (s, err Legacy e)
   | inl c =>
-      if negb (c_code c) then (s, err Legacy E_unauthorized)
+      if negb (has_code s c) then (s, err Legacy E_unauthorized)
       else match code with
       | None => (s, err Legacy E_request)
       | Some cd =>
@@ -628,6 +642,9 @@ Definition step (H : string -> string) (cf : cfg) (r : router) (s : st) (o : op)
   | DropRefresh cl =>
       ({| reqs := reqs s; codes := codes s; rtoks := rtoks s; next := next s; ncode := ncode s;
           norefresh := cl :: norefresh s |}, ODone)
+  | DropGrants cl =>
+      ({| reqs := reqs s; codes := codes s; rtoks := rtoks s; next := next s; ncode := ncode s;
+          norefresh := cl :: ("*" ++ cl)%string :: norefresh s |}, ODone)
   | RevokeRT n =>
       ({| reqs := reqs s; codes := codes s;
           rtoks := filter (fun x => negb (Nat.eqb (r_id x) n)) (rtoks s);
